@@ -12,10 +12,10 @@ from harness import build
 
 PROPERTY = 'C15'
 LEVEL = 'exploration'
-RULE = ('pool of 20 texts chosen to leave lexer/ply state dirty (valid programs, unterminated string, mismatched ")", '
+RULE = ('pool of 22 texts chosen to leave lexer/ply state dirty (valid programs, unterminated string, mismatched ")", '
         'open "if(" header, text ending inside a regex, text ending right after an inserted semicolon, comments, '
-        'CRLF, texts that begin with a regex literal and texts that end on a division-implying token without a semicolon, a function-expression statement (ProductionError path), regex after "}" (back-tracking path), U+2028) '
-        'x comment-capture flag = 40 calls, plus 8 calls through the calmjs.parse.es5 helper object, plus the deferred arrangement (the Parser object of call A is built, call B runs completely, then the object parses A). The expected outcome of each call - ReprWalker dump with positions plus '
+        'CRLF, texts that begin with a regex literal and texts that end on a division-implying token without a semicolon, a function-expression statement (ProductionError path), regex after "}" (back-tracking path), U+2028, texts that end with comments still pending) '
+        'x comment-capture flag = 44 calls, plus 8 calls through the calmjs.parse.es5 helper object, plus the deferred arrangement (the Parser object of call A is built, call B runs completely, then the object parses A). The expected outcome of each call - ReprWalker dump with positions plus '
         'attached comments plus the per-node table of literal-token positions, or exception type and message - is computed in a fresh interpreter per text. '
         '(i) exhaustively all call sequences of length <= 2 (quick) / <= 3 (thorough) in one process, every result '
         'compared with the fresh-process value; (ii) Hypothesis-generated long histories (<= 200 steps) that also '
@@ -47,6 +47,8 @@ TEXTS = [
     'a = b',
     'i++',
     '/=/g.exec(y) / 2',
+    'a = 1; // the text ends inside a comment',
+    'b; /* pending */ /* comments */',
 ]
 CALLS = [(i, wc) for i in range(len(TEXTS)) for wc in (False, True)]
 # texts that are also parsed through the `calmjs.parse.es5(...)` helper object (same parser behind it)
@@ -297,7 +299,7 @@ def run_shard(shard):
 
 
 def finish(m, cov, tier):
-    cov['exhaustive_part'] = 'all %d call sequences of length <= %d over the 48 calls' % (
+    cov['exhaustive_part'] = 'all %d call sequences of length <= %d over the 52 calls' % (
         m['extra'].get('sequences_enumerated', 0), 2 if tier == 'quick' else 3)
     cov['thread_note'] = 'randomised stress only: %d threaded parses, schedule not controlled' % m['extra'].get(
         'threaded_parses', 0)
